@@ -166,7 +166,7 @@ def real_load_resources(schema, resources, main=MAIN, overrides=()):
         return ("internal", e, zf, inner)
 
 
-def materialise(resources, main, prefix="file:///zcv/", reuse=False):
+def materialise(resources, main, prefix="file:///zcv/", reuse=False, odd_dir=False):
     """Write in-memory resources to real files under a fresh temporary directory -- or, with
     reuse=True, under one directory per process that every call re-populates, so that the same
     path names carry different contents from one case to the next.
@@ -184,10 +184,15 @@ def materialise(resources, main, prefix="file:///zcv/", reuse=False):
         root = tempfile.mkdtemp(prefix="zcv-files-")
     out = {}
     newmain = None
+    base = root
+    if odd_dir:
+        # every file lives below a directory whose name a URL has to escape (blank, per cent sign)
+        base = os.path.join(root, "site conf 100%")
+        os.makedirs(base, exist_ok=True)
     for url, text in resources.items():
         assert url.startswith(prefix), url
         rel = url[len(prefix):]
-        path = os.path.join(root, *rel.split("/"))
+        path = os.path.join(base, *rel.split("/"))
         os.makedirs(os.path.dirname(path), exist_ok=True)
         with open(path, "w", encoding="utf-8", newline="\n") as f:
             f.write(text)
